@@ -57,7 +57,7 @@ def run_lin(res, fn, spec_fn, insyms, nout_d, label, extra_args=()):
         res.absorb(m); return m, None, 'ub: ' + str(e)
     res.absorb(m)
     if m.pending or m.taken:
-        res.inc(f'{label}: control flow depends on the data ({len(m.taken)} symbolic branch decisions)'); return m, None, 'fork'
+        return m, None, 'fork'
     for kind, msg, model, where in m.ub_found: res.inc(f'{label}: possible UB {kind}: {msg} at {where}')
     return m, (r, outs[-1][:nout_d]), 'ret'
 
@@ -73,6 +73,10 @@ def job_dft(res, fn, n, nx=None, kind='c', nout=None, frac=0.5):
     def cex(xv, why):
         sp = [('pf64', xv)] + ([('i32', nx), ('i32', n)] if fn.endswith('_n') else [('i32', n)]) + [('pf64', [0.0] * (2 * max(nout, 1)))]
         return confirm(res, PID, HARNESS, fn, sp, 'i32', 'dft', ORACLES, f'dft:{fn}:n={n}' + (f':nx={nx}' if nx != n else ''), why, extra=ex, timeout=120)
+    ref = dft_ref_complex_in(n, nx) if kind == 'c' else dft_ref_real_in(n, nx, nout)
+    if status == 'fork':
+        b0 = Fraction(frac) * 32 * n * Fraction(EPS) * to_frac(mpmath.sqrt(n))
+        region_check(res, HARNESS, fn, spec, insyms, 1, 2 * nout, ref, 2 * b0 * to_frac(mpmath.sqrt(len(insyms))), label, cex); return
     if status != 'ret':
         if status in ('throw',) or status.startswith('ub'):
             cex([((i * 7919 + 13) % 1000) / 1000.0 - 0.5 for i in range(w * nx)], f'{label}: {status} on a valid length')
@@ -81,7 +85,6 @@ def job_dft(res, fn, n, nx=None, kind='c', nout=None, frac=0.5):
     if r != nout: cex([1.0] * (w * nx), f'{label}: returned length {r} instead of {nout}'); return
     rows = plin_matrix(res, m, ys, insyms, label)
     if rows is None: return
-    ref = dft_ref_complex_in(n, nx) if kind == 'c' else dft_ref_real_in(n, nx, nout)
     f2 = fro2(rows, ref, insyms) / 2      # complex Frobenius norm^2 from the real embedding (real-input case: rows cover re/im of each output, same factor is conservative)
     if kind != 'c': f2 = fro2(rows, ref, insyms)
     budget = Fraction(frac) * 32 * n * Fraction(EPS) * to_frac(mpmath.sqrt(n))
@@ -107,6 +110,7 @@ def job_czt(res, fn, n, m_, w, a, factor=32):
     def cex(xv, why):
         sp = [('pf64', xv)] + spec[1:7] + [('pf64', [0.0] * (2 * m_))]
         return confirm(res, PID, HARNESS, fn, sp, 'i32', 'czt', ORACLES, f'czt:{fn}:n={n}:m={m_}', why, extra={'tol': tol}, timeout=120)
+    if status == 'fork': res.inc(f'{label}: data-dependent control flow'); return
     if status != 'ret':
         if status == 'throw' or status.startswith('ub'): cex([0.25 * ((i * 37) % 7 - 3) for i in range(2 * n)], f'{label}: {status}')
         return
